@@ -11,7 +11,8 @@ The application (scripted by the table, i.e. by the message just delivered):
   stringReceived(s):   table[s] = (switch, pause): switch -> rest = self.recvd; self.recvd = b""; every later delivery
                        goes to the other consumer;  pause -> pauseProducing()
 "r" = resumeProducing(); at the end of every case the harness resumes until nothing is paused.
-Observation: L:<hex> S:<hex> X N:<n> C as in c16.py, R:<hex> = raw bytes (consecutive pieces merged), " |open|closed".
+Observation: L:<hex> S:<hex> X N:<n> C as in c16.py, R:<hex> = raw bytes (consecutive pieces merged), P! = a callback ran
+while the receiver was paused (never expected), " |open|closed".
 """
 from __future__ import annotations
 
@@ -47,6 +48,8 @@ def run_impl(case, ops):
             remaining = 0
 
             def lineReceived(self, line):
+                if self.paused:
+                    events.append("P!")            # a message handed over although the receiver is paused
                 events.append("L:" + bytes(line).hex())
                 act = table.get(bytes(line))
                 if act is not None:
@@ -57,6 +60,8 @@ def run_impl(case, ops):
                         self.pauseProducing()
 
             def rawDataReceived(self, data):
+                if self.paused:
+                    events.append("P!")
                 n = self.remaining
                 if len(data) < n:
                     _raw(events, data)
@@ -80,6 +85,8 @@ def run_impl(case, ops):
             switched = False
 
             def stringReceived(self, s):
+                if self.paused:
+                    events.append("P!")
                 events.append("S:" + bytes(s).hex())
                 act = table.get(bytes(s))
                 if act is not None:
@@ -203,6 +210,8 @@ def oracle1(case, ops, obs):
     kind = case["kind"]
     single = {k: v for k, v in case.items() if k not in ("stream", "family")}
     single["ops"] = ops
+    if "P!" in got:
+        return Failure(single, f"a message was delivered while the receiver was paused: {got}", f"{kind}-delivered-while-paused")
     if verdict == "either":
         ok = got == want or got[:len(want)] == want and got[len(want):] == ["X", "C"]
     else:
@@ -314,6 +323,21 @@ def gen(rng, tier):
         for _ in range(4 * n_short if not thorough else 12 * n_short):
             c, s = g(rng, long=rng.random() < 0.5)
             cases.append({**c, "ops": random_ops(rng, s)})
+    # a pausing message followed, in the same delivery or while paused, by many complete short messages
+    from harness.c16 import DELIMS
+    for _ in range(n_short):
+        mx, delim = rng.randrange(2, 7), rng.choice(DELIMS)
+        short = lambda: bytes(rng.choice(b"xy") for _ in range(rng.randrange(0, mx + 1))) + delim
+        burst = b"".join(short() for _ in range(rng.randrange(3, 9)))
+        c = {"kind": "lineapp", "max": mx, "delim": delim.hex(), "table": [["78", None, True], ["", None, rng.random() < 0.5]]}
+        s = b"x" + delim + burst
+        cut = rng.choice([len(s), 1 + len(delim), rng.randrange(1, len(s))])
+        ops = [["d", s[:cut].hex()]] + ([["d", s[cut:].hex()]] if cut < len(s) else []) + [["r"]] + ([["d", (b"x" + delim + burst).hex()]] if rng.random() < 0.5 else [])
+        cases.append({**c, "ops": ops})
+        k = rng.choice([1, 2])
+        msgs = b"".join((1).to_bytes(k, "big") + bytes([rng.choice(b"ab")]) for _ in range(rng.randrange(3, 9)))
+        cases.append({"kind": "intapp", "k": k, "max": rng.randrange(1, 4), "table": [["70", False, True]],
+                      "ops": [["d", ((1).to_bytes(k, "big") + b"p" + msgs).hex()], ["d", msgs.hex()], ["r"], ["d", msgs.hex()]]})
     return cases
 
 
@@ -324,6 +348,12 @@ def corpus():
         {**http, "ops": [["d", b"H: 1\r\n\r".hex()], ["d", b"\n\r\n\r\n\rNEXT\r\nP\r\n".hex()], ["d", b"after\r\n".hex()], ["r"]]},
         {**http, "stream": b"a\r\n\r\nbody!b\r\n".hex(), "family": "upto3"},
         {**http, "ops": [["d", b"P\r\nx\r\nP\r\ny\r\n".hex()], ["r"], ["d", b"z\r\n".hex()]]},
+        # pause from inside lineReceived with MAX_LENGTH + len(delimiter) or more bytes of complete short lines still
+        # buffered / delivered while paused: none of them is over-long, all must be delivered in order after resume
+        {"kind": "lineapp", "max": 4, "delim": "0d0a", "table": [["70", None, True]],
+         "ops": [["d", b"p\r\na\r\nb\r\nc\r\nd\r\n".hex()], ["r"]]},
+        {"kind": "lineapp", "max": 4, "delim": "0d0a", "table": [["70", None, True]],
+         "ops": [["d", b"p\r\n".hex()], ["d", b"a\r\nb\r\n".hex()], ["d", b"c\r\nd\r\ne\r\n".hex()], ["r"], ["d", b"p\r\nxy\r\nz\r\nw\r\n".hex()]]},
         {"kind": "intapp", "k": 2, "max": 10, "table": [["7377", True, False], ["70", False, True]],
          "ops": [["d", "0001"], ["d", "61000273"], ["d", "77ffff00"], ["d", "0102"]]},
         {"kind": "intapp", "k": 1, "max": 10, "table": [["70", False, True]], "ops": [["d", "0170016101"], ["d", "62"], ["r"], ["r"]]},
